@@ -17,6 +17,7 @@ RULE = ("cases = expression trees of the documented grammar (sides = signed sums
         "whose absolute terms all have positive net weight on the smaller side are never rejected as non-convex, core forms are never "
         "rejected with the syntax error; non-trivial = at least one spelling was accepted and the tree has >= 2 items or an absolute "
         "value / group; distinct = SHA-1 of the case")
+EXHAUSTIVE = {"quick": False, "thorough": False}   # the small-shape enumeration is complete in the thorough tier, the rest is sampled
 ASSUMPTIONS = ["relations with a zero or negative net absolute-value weight may be rejected (convexity error) or accepted; if accepted they must be equivalent",
                "absolute terms are merged only when their inner expressions are identical (same coefficients and constant)"]
 
@@ -133,6 +134,31 @@ def _case(draw):
 
 def strategy(tier):
     return _case()
+
+
+# ---- bounded-exhaustive small shapes: sides of 1-2 items from a 10-item alphabet, every ordered pair of sides, <= / >= / =
+def _alphabet():
+    v = lambda name, s=1, c=None: {"s": s, "k": "var", "c": ({"val": c} if c else None), "v": name}  # noqa: E731
+    ab = lambda inner, c=None: {"s": 1, "k": "abs", "c": ({"val": c} if c else None), "in": inner}  # noqa: E731
+    return [v("x"), v("x", -1), v("x", 1, 2.0), v("y"), v("y", -1, 0.5), {"s": 1, "k": "num", "n": {"val": 1.0}},
+            {"s": -1, "k": "num", "n": {"val": 2.0}}, ab([v("x")]), ab([v("y")], 2.0), ab([v("x"), v("y", -1)])]
+
+
+def enumerate_cases(tier):
+    import itertools
+    al = _alphabet()
+    sides = [[a] for a in al] + [[a, b] for a in al for b in al]
+    stride = 1 if tier == "thorough" else 41
+    idx = 0
+    for left, right in itertools.product(sides, sides):
+        for rel in ("<=", ">=", "="):
+            if rel == "=" and any(it["k"] == "abs" for it in left + right):
+                continue
+            idx += 1
+            if idx % stride:
+                continue
+            sp = [[(idx * 31 + 7 * k + j * 13) % 1000 for j in range(8)] for k in range(3)]
+            yield {"cls": "dyadic", "rel": rel, "sides": [[dict(i) for i in left], [dict(i) for i in right]], "spell": sp, "enum": True}
 
 
 # ---------------------------------------------------------------- rendering
